@@ -232,12 +232,13 @@ def lattice(quick):
 
 def run(ctx):
     consts = lattice(ctx.quick)
-    ctx.rule = ("TLC enumerates (BlockDiagEnum) every sequence of 1-3 block sizes, a focus block running through all "
-                "unimodular integer matrices within DB elementary operations of the identity (other blocks L*L^T), "
-                "storage csr/csc x pruned/full/reversed, and for total order <= PermN every row x column permutation; "
-                "each input is executed on the real inverters (python path on all, numba path on the marked sub-lattice, "
-                "permuted inverter with the computed and with the constructing permutation); TLC recomputes A and judges "
-                "A*X = I and ValidPerm exactly (J_BlockDiag); plus seeded random structures with block sizes 1-6")
+    ctx.rule = ("TLC enumerates (BlockDiagEnum) every sequence of 1-3 block sizes from SizeSet, a focus block running "
+                "through all unimodular integer matrices within DB[#blocks] elementary operations of the identity (other "
+                "blocks L*L^T), storage csr/csc x pruned/full/reversed, and for total order <= PermN every row x column "
+                "permutation; each input is executed on the real inverters (python path on all, numba path on the marked "
+                "sub-lattice, permuted inverter with the computed and with the constructing permutation); TLC recomputes "
+                "A from the blocks and judges A*X = I and ValidPerm exactly (J_BlockDiag); plus seeded random structures "
+                f"with 1-5 blocks of sizes 1-6; lattice = {json.dumps({k: str(v) for k, v in consts.items()})}")
     ctx.assumptions = ["blocks are integer unimodular with |entries| <= 12 (block and inverse): the float result must be within "
                        "1e-9 of the integer inverse", "block sizes >= 1 (size-0 entries of s are not generated)",
                        "finest decomposition (connected components) is reported as drift, not demanded"]
@@ -252,7 +253,7 @@ def run(ctx):
         uniq[k] = uniq.get(k, False) or nb
     jobs = [_job(json.loads(k), uniq[k]) for k in sorted(uniq)]
     n_enum = len(jobs)
-    nrand = 40 if ctx.quick else 1200
+    nrand = 40 if ctx.quick else 800
     for fam in ("blocks", "perm"):
         for _ in range(nrand):
             jobs.append(_job(random_input(ctx.rng, fam, 6), True))
@@ -267,7 +268,7 @@ def run(ctx):
         ctx.case(key=(c["fam"], tuple(i["sizes"]), i["fmt"], i["layout"], i["variant"], c["numba"]),
                  nontrivial=sum(i["sizes"]) > 1)
     for fam in ("blocks", "perm"):
-        mine = [c for c in cases[:n_enum] if c["fam"] == fam and sum(c["in"]["sizes"]) >= 4]
+        mine = [c for c in cases[:n_enum] if c["fam"] == fam and sum(c["in"]["sizes"]) >= 3]
         if mine:
             ctx.sample(mine[len(mine) // 2])
     ctx.extra["enumerated_inputs"] = n_enum
